@@ -301,6 +301,22 @@ Theorem C18_gen_ticker_close :
 Proof. exact gen_ticker_close. Qed.
 Print Assumptions C18_gen_ticker_close.
 
+(* the result store is the model's KSticky service: its Close leaves the request in a buffered channel that nothing
+   but the loop of Start reads, so a Close that precedes the loop still ends that Start with nil *)
+Theorem C18_gen_result_store_sticky : forall s, s_g s = GLaunched ->
+  g_rs_start = ([1; 2; 3; 4; 5], Fall) /\ g_rs_close = ([1], RetO 0) /\
+  g_rs_loop_body true false false = ([1], Fall) /\ g_rs_loop_body false true false = ([], RetO 0) /\
+  g_rs_loop_body false false true = ([2], RetO 0) /\
+  exists s1, step (cfg_new KSticky) s GEnter = Some s1 /\ v_started s1 = true /\ v_stopreq s1 = false /\
+    s_g s1 = (if v_stopreq s then GSend MNil else GActive).
+Proof. exact gen_rs_sticky. Qed.
+Print Assumptions C18_gen_result_store_sticky.
+
+Theorem C18_gen_result_store_stop : forall s, s_g s = GActive -> v_stopreq s = true ->
+  exists s1, step (cfg_new KSticky) s GStop = Some s1 /\ s_g s1 = GSend MNil /\ v_stopreq s1 = false.
+Proof. exact gen_rs_stop. Qed.
+Print Assumptions C18_gen_result_store_stop.
+
 (* plugin.Close closes every recoverer in order; startServices launches every recoverer *)
 Theorem C18_gen_plugin_close :
   g_plugin_close = ([1], RetO 1) /\ g_plugin_close_body = ([1], Fall) /\ g_plugin_start_body = ([1], Fall).
